@@ -93,7 +93,7 @@ def mk_state(variant, v):
     raise ValueError(v)
 
 
-def mk_space(sp):
+def mk_space(sp, defer_frac=False):
     kind = sp["kind"]
     if kind == "rv":
         b = sp["bounds"]
@@ -118,7 +118,7 @@ def mk_space(sp):
         return SE3StateSpace(sp["weight"], [tuple(x) for x in b] if b is not None else None)
     else:
         raise ValueError(kind)
-    if sp.get("frac") is not None:
+    if sp.get("frac") is not None and not defer_frac:
         s.set_longest_valid_segment_fraction(sp["frac"])
     return s
 
@@ -249,8 +249,13 @@ class EnvD(Env):
 
 def run_scenario(sc, fault=None, as_false=False, with_distance=False):
     env = (EnvD if with_distance else Env)(sc, fault, as_false)
-    space = mk_space(sc["space"])
+    late = "/frac-late" in sc["id"]
+    space = mk_space(sc["space"], defer_frac=late)
     start = mk_state(sc["variant"], sc["start"])
+    if late:
+        # the same space object served an earlier problem definition before its resolution was changed
+        FROM[sc["variant"]](space, start, env)
+        space.set_longest_valid_segment_fraction(sc["space"]["frac"])
     pd = FROM[sc["variant"]](space, start, env)
     cfg = PlannerConfig(seed=sc["seed"])
     pl = sc["planner"]
